@@ -40,6 +40,240 @@ func rulesC15(c *Ctx, r *Report) {
 		}
 	}
 	rulesReentrant(c, r, []string{"trie.(*Trie).ForEach"})
+	if fe := c.fn("trie", "(*Trie).ForEach"); fe != nil {
+		ruleStaleElem(c, r, fe)
+	}
+	rulesTrieWalk(c, r)
+	rulesTrieEmptyKey(c, r)
+}
+
+// rulesTrieWalk (DEL-WALK): in Delete every child lookup is nil-tested before the walk can reach the
+// deletion phase: a key that is absent at any depth — the last one included — is reported as not found.
+func rulesTrieWalk(c *Ctx, r *Report) {
+	f := c.fn("trie", "(*Trie).Delete")
+	where := "trie.(*Trie).Delete"
+	if f == nil {
+		return // reported by DEL-NF
+	}
+	var dels []*ssa.Call
+	var lookups []*ssa.Lookup
+	instrs(f, func(in ssa.Instruction) {
+		switch x := in.(type) {
+		case *ssa.Call:
+			if b, ok := x.Call.Value.(*ssa.Builtin); ok && b.Name() == "delete" {
+				dels = append(dels, x)
+			}
+		case *ssa.Lookup:
+			if _, isMap := x.X.Type().Underlying().(*types.Map); isMap {
+				if _, isPtr := x.Type().Underlying().(*types.Pointer); isPtr {
+					lookups = append(lookups, x)
+				}
+			}
+		}
+	})
+	for _, lk := range lookups {
+		// the values that carry the lookup's result: itself and phis merging it
+		carries := map[ssa.Value]bool{lk: true}
+		for changed := true; changed; {
+			changed = false
+			instrs(f, func(in ssa.Instruction) {
+				if phi, ok := in.(*ssa.Phi); ok && !carries[phi] {
+					for _, e := range phi.Edges {
+						if carries[e] {
+							carries[phi] = true
+							changed = true
+						}
+					}
+				}
+			})
+		}
+		isTest := func(b *ssa.BasicBlock) bool {
+			iff, ok := lastInstr(b).(*ssa.If)
+			if !ok {
+				return false
+			}
+			bo, ok := iff.Cond.(*ssa.BinOp)
+			if !ok || (bo.Op != token.EQL && bo.Op != token.NEQ) {
+				return false
+			}
+			return carries[bo.X] && isNilConst(bo.Y) || carries[bo.Y] && isNilConst(bo.X)
+		}
+		// search a path from the lookup to a delete() that passes no nil test of the result
+		seen := map[*ssa.BasicBlock]bool{}
+		untested := ""
+		var walk func(b *ssa.BasicBlock, from int)
+		walk = func(b *ssa.BasicBlock, from int) {
+			for _, in := range b.Instrs[from:] {
+				for _, d := range dels {
+					if in == ssa.Instruction(d) {
+						untested = c.pos(d.Pos())
+					}
+				}
+			}
+			if isTest(b) {
+				return
+			}
+			for _, su := range b.Succs {
+				if !seen[su] {
+					seen[su] = true
+					walk(su, 0)
+				}
+			}
+		}
+		idx := 0
+		for i, in := range lk.Block().Instrs {
+			if in == ssa.Instruction(lk) {
+				idx = i + 1
+			}
+		}
+		walk(lk.Block(), idx)
+		r.check(untested == "", "DEL-WALK", where, "child lookup tested", c.pos(lk.Pos()),
+			"every path from this child lookup to the deletion phase passes a nil test of its result: an absent key is reported, whatever its depth",
+			"a path leads from this child lookup to delete() at "+untested+" without testing its result for nil: when the last byte of the key has no child, Delete still removes an edge and returns true")
+	}
+	r.floor("DEL-WALK", len(lookups), 1, "child lookups in Delete's downward walk")
+}
+
+// reachUnderEmptyKey walks f from its entry following only the edges that are possible when the slice
+// parameter is empty (conditions on len of the parameter — or of a loop variable that still holds it — are
+// evaluated, all other conditions are taken both ways).
+func reachUnderEmptyKey(f *ssa.Function, param ssa.Value) map[*ssa.BasicBlock]bool {
+	reached := map[*ssa.BasicBlock]bool{}
+	type edge struct{ from, to *ssa.BasicBlock }
+	seenEdge := map[edge]bool{}
+	type env struct {
+		isParam map[ssa.Value]bool  // values that still are the (empty) parameter
+		ints    map[ssa.Value]int64 // integer values known on this path
+	}
+	var walk func(b, pred *ssa.BasicBlock, e env)
+	walk = func(b, pred *ssa.BasicBlock, e env) {
+		reached[b] = true
+		cur := env{map[ssa.Value]bool{}, map[ssa.Value]int64{}}
+		for k, v := range e.isParam {
+			cur.isParam[k] = v
+		}
+		for k, v := range e.ints {
+			cur.ints[k] = v
+		}
+		known := func(v ssa.Value) (int64, bool) {
+			if k, ok := cInt(constVal(v)); ok {
+				return k, true
+			}
+			k, ok := cur.ints[v]
+			return k, ok
+		}
+		for _, in := range b.Instrs {
+			switch x := in.(type) {
+			case *ssa.Phi:
+				delete(cur.isParam, x)
+				delete(cur.ints, x)
+				for i, p := range b.Preds {
+					if p != pred {
+						continue
+					}
+					if e.isParam[x.Edges[i]] {
+						cur.isParam[x] = true
+					}
+					if k, ok := cInt(constVal(x.Edges[i])); ok {
+						cur.ints[x] = k
+					} else if k, ok := e.ints[x.Edges[i]]; ok {
+						cur.ints[x] = k
+					}
+				}
+			case *ssa.Call:
+				if bi, ok := x.Call.Value.(*ssa.Builtin); ok && bi.Name() == "len" && cur.isParam[x.Call.Args[0]] {
+					cur.ints[x] = 0
+				}
+			case *ssa.BinOp:
+				l, ok1 := known(x.X)
+				r, ok2 := known(x.Y)
+				if ok1 && ok2 {
+					switch x.Op {
+					case token.ADD:
+						cur.ints[x] = l + r
+					case token.SUB:
+						cur.ints[x] = l - r
+					}
+				}
+			}
+		}
+		outs := []bool{true, true}
+		if iff, ok := lastInstr(b).(*ssa.If); ok {
+			if bo, ok := iff.Cond.(*ssa.BinOp); ok {
+				l, ok1 := known(bo.X)
+				r, ok2 := known(bo.Y)
+				if ok1 && ok2 {
+					if res, okc := cmpHolds(bo.Op, int(l), int(r)); okc {
+						outs = []bool{res, !res}
+					}
+				}
+			}
+		}
+		for i, su := range b.Succs {
+			if i < len(outs) && !outs[i] {
+				continue
+			}
+			if seenEdge[edge{b, su}] {
+				continue
+			}
+			seenEdge[edge{b, su}] = true
+			walk(su, b, cur)
+		}
+	}
+	walk(f.Blocks[0], nil, env{map[ssa.Value]bool{param: true}, map[ssa.Value]int64{}})
+	return reached
+}
+
+// rulesTrieEmptyKey (EMPTY-KEY): with an empty argument, Has can only return true and Add reaches no write.
+func rulesTrieEmptyKey(c *Ctx, r *Report) {
+	if f := c.fn("trie", "(*Trie).Has"); f != nil && len(f.Params) == 2 {
+		where := "trie.(*Trie).Has"
+		reached := reachUnderEmptyKey(f, f.Params[1])
+		var bad []string
+		nRet := 0
+		instrs(f, func(in ssa.Instruction) {
+			rt, ok := in.(*ssa.Return)
+			if !ok || !reached[rt.Block()] {
+				return
+			}
+			nRet++
+			if k := constVal(retOperands(rt)[0]); k == nil || k.String() != "true" {
+				bad = append(bad, c.pos(rt.Pos()))
+			}
+		})
+		r.check(len(bad) == 0 && nRet > 0, "EMPTY-KEY", where, "Has(empty)", c.pos(f.Pos()),
+			fmt.Sprintf("with an empty argument the only reachable return (%d) is `true`, whatever the trie holds", nRet),
+			fmt.Sprintf("with an empty argument a return other than `true` is reachable (%v) depending on something else than the argument: Has(empty) must be true for every trie", bad))
+	} else {
+		r.undecided("EMPTY-KEY", "trie.(*Trie).Has", "anchor", "", "Has(b) not found")
+	}
+	if f := c.fn("trie", "(*Trie).Add"); f != nil && len(f.Params) == 2 {
+		where := "trie.(*Trie).Add"
+		reached := reachUnderEmptyKey(f, f.Params[1])
+		var bad []string
+		instrs(f, func(in ssa.Instruction) {
+			if !reached[in.Block()] {
+				return
+			}
+			switch x := in.(type) {
+			case *ssa.MapUpdate:
+				bad = append(bad, "map update at "+c.pos(x.Pos()))
+			case *ssa.Store:
+				if _, local := x.Addr.(*ssa.Alloc); !local {
+					bad = append(bad, "store at "+c.pos(x.Pos()))
+				}
+			case *ssa.Call:
+				if g := x.Call.StaticCallee(); g != nil && c.inModule(g) {
+					bad = append(bad, "call of "+fname(g)+" at "+c.pos(x.Pos()))
+				}
+			}
+		})
+		r.check(len(bad) == 0, "EMPTY-KEY", where, "Add(empty)", c.pos(f.Pos()),
+			"with an empty argument no map update, store or module call is reachable: adding the empty sequence changes nothing",
+			"with an empty argument Add can reach: "+strings.Join(bad, "; "))
+	} else {
+		r.undecided("EMPTY-KEY", "trie.(*Trie).Add", "anchor", "", "Add(b) not found")
+	}
 }
 
 func rulesTrieDelete(c *Ctx, r *Report, e *effEngine) {
